@@ -121,7 +121,8 @@ Inductive op : Type :=
 | OPut (p : loc) (obj : term)              (* snapshot: uploads the object (its name is the hash of obj) *)
 | OLoad (sel : option (list term))         (* list-snapshots / list-files / restore [--snapshot-regex] *)
 | ODelete (names : list term)              (* delete: load all, refuse if a name is absent / not readable *)
-| OCacheSet (p : loc) (e : option term).   (* something else rewrote / removed / truncated a cache entry *)
+| OCacheSet (p : loc) (e : option term)    (* something else rewrote / removed / truncated a cache entry *)
+| ORemove (p : loc).                       (* another tool removed an object from the backend (delete-objects) *)
 
 Definition mem (l : list term) (t : term) : bool := existsb (term_eqb t) l.
 Definition loc_name (p : loc) : term := match p with LSnap n _ => n | LChunk n _ => n | LOther _ => Nil end.
@@ -134,6 +135,7 @@ Definition step (vc : bool) (m : mode) (ca : option store) (st : store) (o : op)
   match o with
   | OPut p obj => ((0%N, []), ca, (p, obj) :: remove st p)
   | OCacheSet p e => ((0%N, []), option_map (fun c => apply_mod c (p, e)) ca, st)
+  | ORemove p => ((0%N, []), ca, remove st p)
   | OLoad sel =>
       let f := match sel with Some l => mem l | None => fun _ => true end in
       let ca' := option_map (fun c => sym_cache_after vc m f c st) ca in
